@@ -214,6 +214,6 @@ def fault_classes(runner) -> List[str]:
         if op[0] == 'restart':
             kinds.add('restart-quick' if int(op[2]) <= 8 else 'restart-slow')
         elif op[0] in ('direct_start', 'direct_stop', 'rpc', 'rpc_fuzz', 'group_ops', 'exit', 'end_sync', 'swallow',
-                       'drop'):
+                       'drop', 'drop_next'):
             kinds.add('op:' + op[0])
     return sorted(kinds)
